@@ -184,6 +184,7 @@ enum {
 	K_EXTRA_SEND_B, K_EXTRA_SEND_A,
 	K_PIPE_CLOSE, K_PEER_LOSS_B, K_PEER_LOSS_A, K_SLEEP_5,
 	K_BIG_SEND_B, K_BIG_SEND_A,
+	K_STOPPED_AIO_SEND_B, K_STOPPED_AIO_SEND_A,
 	K_N
 };
 static const char *KN[] = { "none", "recvbuf0(A)", "recvbuf1(A)", "recvbuf8(A)",
@@ -196,7 +197,8 @@ static const char *KN[] = { "none", "recvbuf0(A)", "recvbuf1(A)", "recvbuf8(A)",
 	"nonblock send(B)", "nonblock send(A)", "nonblock recv(A)",
 	"nonblock recv(B)", "send timeout 1ms(B)", "recv timeout 1ms(A)",
 	"extra send(B)", "extra send(A)", "pipe close", "close B", "close A",
-	"sleep 5ms", "3 MB aio send left in flight(B)", "3 MB aio send left in flight(A)" };
+	"sleep 5ms", "3 MB aio send left in flight(B)", "3 MB aio send left in flight(A)",
+	"send on a stopped aio(B)", "send on a stopped aio(A)" };
 
 static void
 perturb(int k)
@@ -375,6 +377,34 @@ perturb(int k)
 	case K_SLEEP_5:
 		vs_sleep(5);
 		break;
+	case K_STOPPED_AIO_SEND_B:
+	case K_STOPPED_AIO_SEND_A: {
+		// an aio that nng_aio_stop has retired refuses every further operation: the send
+		// fails, and a failed send leaves the message attached and the caller's
+		nng_socket t = k == K_STOPPED_AIO_SEND_B ? B : A;
+		if (!(k == K_STOPPED_AIO_SEND_B ? b_open : a_open))
+			break;
+		if (nng_aio_alloc(&aio, nop_cb, NULL) != 0 || nng_msg_alloc(&m, 8) != 0)
+			vs_fail("harness:setup", "aio alloc");
+		nng_msg_header_append_u32(m, 0x80000055u); // (raw sockets want an id / hop word)
+		nng_aio_stop(aio);
+		nng_aio_set_msg(aio, m);
+		nng_socket_send(t, aio);
+		nng_aio_wait(aio);
+		if (nng_aio_result(aio) == 0) {
+			// (only providers that go through nng_aio_start are refused; a send that
+			// completes on the spot may succeed - then the library owns the message)
+			nng_aio_free(aio);
+			break;
+		}
+		if (nng_aio_get_msg(aio) != m)
+			vs_fail("C03:ownership:aio-msg-detached",
+			    "%s over %s: send on a stopped aio failed (%s) but the aio no longer "
+			    "carries the caller's message",
+			    PP[g_pair].name, TRN[g_tran], nng_strerror(nng_aio_result(aio)));
+		nng_msg_free(m);
+		nng_aio_free(aio);
+	} break;
 	case K_BIG_SEND_B:
 		if (b_open)
 			big_send(B);
